@@ -8,6 +8,7 @@ reported / not reported.  The *not reported* list is what a human then triages: 
 value-level (out of reach of this technique), or a blind spot worth a rule.
 
     tools/mutation_sweep.py [--jobs 12] [qualname ...]      # default: built-in anchor list
+    SWEEP_STATIC=1 …                                        # rules only, no smoke run of survivors
 """
 
 import ast
@@ -186,7 +187,7 @@ def run_mutant(m):
                 errs.append(f"{prop}:CRASH {e!r}"[:80])
         status = "reported" if fired else ("anchor-lost" if errs else "NOT-REPORTED")
         smoke = None
-        if status != "reported":
+        if status != "reported" and not os.environ.get("SWEEP_STATIC"):
             import subprocess
 
             try:
